@@ -213,6 +213,28 @@ class Exec:
                 self.run(ks[1])
             elif len(ks) > 2:
                 self.run(ks[2])
+        elif k == "CXXForRangeStmt":
+            rng = None
+            var = None
+            for c in ks:
+                if c.get("kind") == "DeclStmt":
+                    for v in A.kids(c):
+                        nm = v.get("name") or ""
+                        if nm.startswith("__range") and A.kids(v):
+                            rng = A.to_expr(A.kids(v)[-1])
+                        elif v.get("kind") == "VarDecl" and not nm.startswith("__"):
+                            var = nm
+            if rng is None or var is None:
+                raise PEError("range-based for: range / loop variable not recognised")
+            key = self.key(rng)
+            if key not in self.arrays:
+                raise PEError("range-based for over unknown range %s" % key)
+            for val in list(self.arrays[key]):
+                self.env[var] = val
+                self.run(ks[-1])
+                self.steps += 1
+                if self.steps > self.max_steps:
+                    raise PEError("step limit")
         elif k in ("BinaryOperator", "CompoundAssignOperator", "CXXOperatorCallExpr", "UnaryOperator"):
             self.val(A.to_expr(stmt))
         elif k in TRANSPARENT_STMT:
